@@ -72,6 +72,20 @@ pub struct EnvNode {
 }
 pub type Env = Option<Rc<EnvNode>>;
 
+/// latest binding of every name in an environment
+pub fn env_bindings(env: &Env) -> Vec<(String, V)> {
+    let mut seen = std::collections::BTreeSet::new();
+    let mut out = Vec::new();
+    let mut cur = env;
+    while let Some(node) = cur {
+        if seen.insert(node.name.clone()) {
+            out.push((node.name.clone(), node.value.clone()));
+        }
+        cur = &node.parent;
+    }
+    out
+}
+
 fn bind(env: &Env, name: &str, value: V) -> Env {
     Some(Rc::new(EnvNode {
         name: name.to_string(),
